@@ -912,6 +912,17 @@ func (c *specCtx) call(n *SCall) (Val, types.Type) {
 		return scalar(v.ifTag()), untypedInt
 	case "payload":
 		v, _ := arg(0)
+		if ix, isC := v.ann("").(*IfaceX); isC && ix.Box != nil {
+			if _, isPtr := ix.Dyn.Underlying().(*types.Pointer); isPtr {
+				if px, ok := ix.Box.ann("").(*PtrX); ok && px.Kind == PLocal && px.Path == "" && px.Elem < 0 {
+					// the interface holds a pointer to an object still kept in a local cell: that pointer (not the box)
+					if cc := c.st.Cells[px.Cell]; cc.Spill != nil {
+						return scalar(cc.Spill), untypedInt
+					}
+					return *ix.Box, untypedInt
+				}
+			}
+		}
 		return scalar(v.ifVal()), untypedInt
 	case "istype":
 		v, _ := arg(0)
@@ -1173,6 +1184,13 @@ func (c *specCtx) call(n *SCall) (Val, types.Type) {
 		// unixnano(t): the value of t.UnixNano() (uninterpreted function of the time value)
 		v, T := arg(0)
 		return scalar(c.e.unixNano(c.st, v, T)), untypedInt
+	case "bufferOf":
+		// bufferOf(s): the *bytes.Buffer whose Bytes() call returned the slice s (0 if s did not come from one)
+		v, _ := arg(0)
+		if len(v.T) < 3 {
+			c.fail("bufferOf needs a slice")
+		}
+		return scalar(tb.Select(c.ghostArr("bufsrc", SArrI), v.slArr())), untypedInt
 	case "wpos":
 		// wpos(w): number of bytes written to writer w so far (ghost)
 		v, _ := arg(0)
